@@ -25,12 +25,13 @@
                           proved (no temporal logic): the theorems say a step is always available and
                           `bq_guard_stable` says it stays useful.
     bq_timed_bound        remaining timeout ≤ timeout of the call; expiry test ends the wait.
-  Not proved: `bq_wake_view` (DESIGN B-level: the batch waker against the waiter over the View memory model).
+  `bq_wake_view` (batch waker against the waiter over the View memory model) is proved below, with negative controls.
   All executions here are sequentially consistent interleavings; the seq_cst fence of the batch waker is tied by
   `gen_batch_wake_fence`, weak-memory behaviour is exercised by the VRT view-mode pass of the check.
 -/
 import Babylon.BQ.Spec
 import Babylon.BQ.WakePending
+import Babylon.BQ.WakeView
 import Babylon.BQ.Skel
 import Babylon.BQ.Examples
 
@@ -160,6 +161,41 @@ was completed, i.e. an element is queued that nobody asked for yet. -/
 theorem bq_unissued_pop_means_element (c : Cfg) (y : Sys) (h : ReachF c y) (i : Nat)
     (hv : y.s.ver (slotOf c i) = expVer c .pop i) : y.s.pushedV i = some (y.s.val (slotOf c i)) :=
   (inv_reach h).valRd i hv
+
+/-! ### the batch waker's handshake under weak memory (Babylon/BQ/WakeView.lean)
+Release/acquire view model of Core/MemView.lean; the two halves of the futex word as two locations (only adds behaviours);
+futex_wait = full barrier + load (kernel contract); orders from the generated constants, a missing fence extracted as `.rlx`. -/
+/-- **bq_wake_view.**  Batch waker [set_version(ordBatchStore); fence(ordBatchScFence); word.load(ordWakeLoad)] against a waiter
+[CAS waiter mark (ordBatchLoad); futex barrier; kernel value check]: in NO interleaving of the view model (all of them, stale reads
+included) do both sides read the other's initial message — the waker sees the mark or the kernel sees the new version: no lost
+wake-up.  For deal_n_continuously and try_deal_n_continuously. -/
+theorem bq_wake_view : WakeView.lostWakeup ordBatchScFence .sc = false ∧ WakeView.lostWakeup ordTryBatchScFence .sc = false :=
+  WakeView.wake_view
+
+/-- **bq_wake_view_needs_fence** (negative control).  With the waker's seq_cst fence dropped (extracted as `.rlx`) or weakened to
+acq_rel the wake-up can be lost: the dropped-fence mutation breaks `bq_wake_view` itself. -/
+theorem bq_wake_view_needs_fence : WakeView.lostWakeup .rlx .sc = true ∧ WakeView.lostWakeup .acqrel .sc = true :=
+  WakeView.wake_view_needs_fence
+
+/-- the waiter side needs the barrier of futex_wait as well (trusted kernel contract) -/
+theorem bq_wake_view_needs_futex_barrier : WakeView.lostWakeup ordBatchScFence .rlx = true := WakeView.wake_view_needs_futex_barrier
+
+open Babylon.Core.MemView in
+/-- general form, waker's fence first: a waiter that passes the futex barrier afterwards cannot have the kernel check read a version
+older than the waker's store — it does not sleep on the stale version (arbitrary steps of anybody in between) -/
+theorem bq_wake_view_waker_first {L : Type} [DecidableEq L] (m : Mem L) (p c : Nat) (lv : L) (nv : Nat) (o : Babylon.Core.Ord)
+    {m2 m3 m4 : Mem L} {ts v : Nat}
+    (hext : ((m.write p lv ordBatchStore nv).fence p ordBatchScFence).Ext m2) (hext2 : (m2.fence c .sc).Ext m3)
+    (hrd : m3.read c lv o ts = some (m4, v)) : m.len lv ≤ ts := WakeView.wake_view_waker_first m p c lv nv o hext hext2 hrd
+
+open Babylon.Core.MemView in
+/-- general form, waiter's barrier first: a waker that fences afterwards and then loads the mark cannot read a message older than the
+waiter's CAS — it sees the mark, clears it and calls wake_all -/
+theorem bq_wake_view_waiter_first {L : Type} [DecidableEq L] (m : Mem L) (p c : Nat) (wt : L) (f : Nat → Nat)
+    {m1 m2 m3 m4 : Mem L} {old ts v : Nat}
+    (hrmw : m.rmw c wt ordBatchLoad f = some (m1, old)) (hext : (m1.fence c .sc).Ext m2)
+    (hext2 : (m2.fence p ordBatchScFence).Ext m3) (hrd : m3.read p wt ordWakeLoad ts = some (m4, v)) : m.len wt ≤ ts :=
+  WakeView.wake_view_waiter_first m p c wt f hrmw hext hext2 hrd
 
 /-! ### timed exclusive pop -/
 /-- **bq_timed_bound.**  The relative timeout a thread in `try_pop_n_exclusively_until` still waits with
